@@ -51,6 +51,7 @@ class Ctx:
         nontriv = sum(s.get('distinct_nontrivial', 0) for s in self.suite_stats)
         samples = []
         for s in self.suite_stats:
+            s['samples'] = [pretty_sample(x) for x in s.get('samples', [])]
             for x in s.get('samples', [])[:6]:
                 samples.append('%s: %s' % (s['suite'], x))
         thms = [t for t, _ in self.obligations]
@@ -89,6 +90,28 @@ class Ctx:
         with open(tmp, 'w') as f:
             json.dump(ev, f, indent=1)
         os.replace(tmp, path)
+
+
+def pretty_sample(s):
+    """decode the code-point lists of the text suites so that a reader sees the formula"""
+    from . import sx
+    try:
+        op, rest = s.split(' ', 1)
+        if op not in ('tok', 'parse', 'eval', 'cli', 'robust'):
+            return s
+        args, _, res = rest.partition(' => ')
+        a = sx.parse(args)
+
+        def dec(l):
+            return ''.join(chr(int(x.split(':')[0])) for x in l)
+        if op == 'parse':
+            return '%s %r => %s' % (op, dec(a[0]), res)
+        if op in ('tok', 'eval'):
+            ordn = [(dec(e[0]), int(e[1])) for e in a[0]]
+            return '%s ordering=%r %r => %s' % (op, ordn, dec(a[1]), res)
+    except Exception:
+        pass
+    return s
 
 
 def load_known(path):
